@@ -541,6 +541,59 @@ Proof.
   repeat split; auto; lia.
 Qed.
 
+(* ... and all of them: after expire(now) no row with 0 <= expire_time < now is left, however many share one time
+   (the lower bound of the page query is inclusive; processed rows are deleted, so none is selected twice) *)
+Lemma last_in {A} (l : list A) d : l <> [] -> In (last l d) l.
+Proof.
+  induction l as [|a l IH]; [congruence|]. intros _. destruct l as [|b l]; [left; reflexivity|].
+  right. apply IH. discriminate.
+Qed.
+
+Lemma expire_loop_complete now : forall fuel b s cnt s' n,
+  wf s ->
+  (forall r, In r (rows s) -> expire_due 0 now r = true -> expire_due b now r = true) ->
+  select_delete fuel (fun b t => expire_select b now expire_page t) (fun r => time_or_zero (expire_time r)) b s cnt = (s', RInt n) ->
+  forall r, In r (rows s') -> expire_due 0 now r = false.
+Proof.
+  induction fuel as [|f IH]; intros b s cnt s' n Hw Hinv H; cbn [select_delete] in H; [discriminate|].
+  destruct (expire_select b now expire_page (rows s)) as [|x pg'] eqn:Epg.
+  - injection H as <- <-. intros r Hr. destruct (expire_due 0 now r) eqn:Ed; [|reflexivity]. exfalso.
+    rewrite bridge_expire_select in Epg. apply sql_limit_nil in Epg; [|discriminate].
+    assert (Hin : In r (sql_order false [ord_optz expire_time] (filter (expire_due b now) (rows s)))).
+    { apply sql_order_in, filter_In. split; [exact Hr|]. apply Hinv; auto. }
+    rewrite Epg in Hin. exact Hin.
+  - rewrite <- Epg in H. remember (expire_select b now expire_page (rows s)) as pg eqn:Hpg.
+    rewrite bridge_expire_select in Hpg.
+    assert (Hsel : forall r, In r pg -> In r (rows s) /\ expire_due b now r = true).
+    { intros r Hr. rewrite Hpg in Hr. apply select_shape_incl in Hr. exact Hr. }
+    assert (Hincl : incl pg (rows s)) by (intros r Hr; apply Hsel in Hr; tauto).
+    assert (Hndp : NoDup pg).
+    { rewrite Hpg. apply select_shape_nodup. eapply NoDup_map_NoDup; eauto. }
+    assert (Hdel : t_delete (select_delete_delete (map rowid pg) (rows s)) s
+                   = t_delete (fun r => mem_rowid (rowid r) pg) s).
+    { apply t_delete_ext. intros r. rewrite bridge_select_delete_delete. apply existsb_ids. }
+    rewrite Hdel in H. clear Hdel.
+    destruct (delete_sel_facts s pg Hw Hincl Hndp) as (Hw1 & Hin1 & Hc1). cbn zeta in *.
+    eapply IH; [| |exact H]; [apply fs_remove_wf; exact Hw1|].
+    rewrite fs_remove_rows. intros r Hr Hd. apply Hin1 in Hr. destruct Hr as [Hr Hnp].
+    pose proof (Hinv r Hr Hd) as Hb.
+    assert (Hl : In (last pg dummy_row) pg) by (apply last_in; rewrite Epg; discriminate).
+    destruct (Hsel _ Hl) as [_ Hlb].
+    unfold expire_due in *. destruct (expire_time r) as [e|] eqn:Ee; [|discriminate].
+    destruct (expire_time (last pg dummy_row)) as [el|] eqn:El; [|discriminate]. cbn [time_or_zero].
+    assert (el <= e).
+    { rewrite Hpg in Hl, Hnp, El.
+      eapply order_limit_prefix_optz; [exact Hl| |exact Hnp|exact El|exact Ee].
+      apply filter_In. split; [exact Hr|]. unfold expire_due. rewrite Ee. exact Hb. }
+    lia.
+Qed.
+
+Theorem op_expire_complete s now s' n :
+  wf s -> op_expire s now = (s', RInt n) -> forall r, In r (rows s') -> expire_due 0 now r = false.
+Proof.
+  intros Hw H. unfold op_expire in H. eapply expire_loop_complete; eauto.
+Qed.
+
 (* cull(): the full statement.  vols = the page part of volume() at each evaluation of the loop test. *)
 Theorem op_cull_spec c s now vols s' n :
   wf s -> op_cull c s now vols = (s', RInt n) ->
@@ -548,6 +601,7 @@ Theorem op_cull_spec c s now vols s' n :
     (* first expire(now): only passed rows go *)
     op_expire s now = (s1, RInt n1)
     /\ (forall r, removed s s1 r -> passed now r = true)
+    /\ (forall r, In r (rows s1) -> expire_due 0 now r = false)
     (* then rows of what is left, in policy order *)
     /\ (forall r, In r (rows s') -> In r (rows s1)) /\ (forall r, In r (rows s1) -> In r (rows s))
     /\ (forall r r', removed s1 s' r -> In r' (rows s') -> policy_key (c_policy c) r <= policy_key (c_policy c) r')
@@ -568,6 +622,7 @@ Proof.
   exists s1, n1. split; [reflexivity|].
   destruct (op_expire_spec s now s1 n1 Hw Ee) as (Hw1 & Hsub1 & Hp1 & Hn1).
   split; [exact Hp1|].
+  split; [exact (op_expire_complete s now s1 n1 Hw Ee)|].
   rewrite bridge_policy_has_cull in H. destruct (is_pnone (c_policy c)) eqn:Ep; cbn [negb] in H.
   - rewrite bridge_cull_none_returns_count in H. injection H as <- <-.
     repeat split; auto.
@@ -1126,7 +1181,7 @@ Theorem op_cull_none_never c s now vols s' res r :
   c_policy c = PNone -> wf s -> op_cull c s now vols = (s', res) -> removed s s' r -> passed now r = true.
 Proof.
   intros Ep Hw H Hr. destruct (op_cull_total c s now vols Hw) as (s'' & n & E). rewrite E in H. injection H as <- <-.
-  destruct (op_cull_spec c s now vols s'' n Hw E) as (s1 & n1 & _ & Hp & _ & _ & _ & Hnone & _).
+  destruct (op_cull_spec c s now vols s'' n Hw E) as (s1 & n1 & _ & Hp & _ & _ & _ & _ & Hnone & _).
   rewrite (Hnone Ep) in Hr. apply Hp. exact Hr.
 Qed.
 
